@@ -33,8 +33,11 @@ def judge (l : OpLine) (calls : List Call) (res : Res) (extras : List String) : 
       (if calls.isEmpty ∧ res == .err then [] else ["C07 the call must be rejected with nothing sent"])
     else
       let serial := n32 (a l.args 0)
+      -- "a call is rejected only for these reasons": also when some argument is outside the domain in which C01
+      -- fixes the request bytes (a year above 9999, say), nothing but the listed rules may reject the call
+      if calls.isEmpty then ["C07 none of the rejection rules applies: the call must not be rejected"] else
       match requestImage op l.args with
-      | none => []                                  -- some argument outside its domain: unconstrained
+      | none => []                                  -- some argument outside its domain: the bytes are unconstrained
       | some img =>
         if calls.isEmpty then ["C07 the arguments are valid: the call must not be rejected"]
         else
